@@ -48,6 +48,7 @@ CHAINS = {
     2: (_p_add, _p_double),
     3: (_p_inplace,),
     4: (_p_inplace, _p_scale),
+    5: (_p_double, _p_add, _p_double),      # one (non-idempotent) function object twice in a chain
 }
 
 
